@@ -3,7 +3,7 @@
 cd /verif
 for d in seeded/*/; do
   id=$(basename $d); prop=${id%%-*}
-  patch=$d/patch.diff; [ -f $d/patch_rebased.diff ] && patch=$d/patch_rebased.diff
+  patch=/verif/$d/patch.diff; [ -f /verif/$d/patch_rebased.diff ] && patch=/verif/$d/patch_rebased.diff
   out=$(tools/try_seed.sh $patch $prop 2>&1)
   rc=$(echo "$out" | grep -o "rc=[0-9]*" | head -1 | cut -d= -f2)
   keys=$(echo "$out" | grep -o "^\s*\[[^]]*\]" | tr -d ' []' | sort -u | tr '\n' ',' )
